@@ -11,6 +11,9 @@ pub struct ScriptGen {
     pub rng: Rng,
     label_texts: Vec<String>,
     name_shift: usize,
+    /// One generator in four renders every command in one fixed way (no optional spaces, comments or nu-prefixes), so that
+    /// a command that occurs twice in a program occurs twice with the very same text.
+    plain: bool,
 }
 
 // case-colliding (x/X), prefix-colliding (a/ab) and digit-only names on purpose
@@ -26,7 +29,8 @@ impl ScriptGen {
             .collect::<Vec<_>>();
         let mut rng = Rng::new(seed);
         let name_shift = rng.below(VAR_NAMES.len());
-        Self { rng, label_texts, name_shift }
+        let plain = rng.chance(1, 4);
+        Self { rng, label_texts, name_shift, plain }
     }
 
     /// Generate a program of min..=max commands legal for model `m`; returns AST and rendering.
@@ -48,7 +52,9 @@ impl ScriptGen {
         while cmds.len() < want && guard < want * 20 {
             guard += 1;
             let kind = self.rng.weighted(&[35, 35, 30]);
-            let cand: Option<Cmd> = match kind {
+            // one command in seven repeats an earlier command of the program verbatim (after others may have overridden it)
+            let repeat = if !cmds.is_empty() && self.rng.chance(1, 7) { Some(self.rng.pick(&cmds).clone()) } else { None };
+            let cand: Option<Cmd> = if let Some(r) = repeat { Some(r) } else { match kind {
                 0 => {
                     // ADD: new variable, literal absent, literal present
                     match self.rng.below(10) {
@@ -99,7 +105,7 @@ impl ScriptGen {
                         Some(Cmd::Put(self.ident_for(v, &vars), self.rng.bytes(len)))
                     }
                 }
-            };
+            } };
             let Some(c) = cand else { continue };
             // legality by trial on a copy
             let mut trial = sim.clone();
@@ -128,6 +134,9 @@ impl ScriptGen {
 
     fn ws(&mut self, allow_comment: bool) -> String {
         let mut s = String::new();
+        if self.plain {
+            return s;
+        }
         let k = self.rng.below(4);
         for _ in 0..k {
             match self.rng.below(if allow_comment { 8 } else { 6 }) {
@@ -147,7 +156,7 @@ impl ScriptGen {
     fn ident(&mut self, i: &Ident) -> String {
         match i {
             Ident::Lit(v) => {
-                if self.rng.chance(1, 2) {
+                if !self.plain && self.rng.chance(1, 2) {
                     format!("ν{v}")
                 } else {
                     format!("{v}")
@@ -158,6 +167,9 @@ impl ScriptGen {
     }
 
     fn hexdata(&mut self, d: &[u8]) -> String {
+        if self.plain {
+            return crate::ops::hex(d);
+        }
         let sep_mode = self.rng.below(5);
         let mut s = String::new();
         for (i, b) in d.iter().enumerate() {
@@ -192,7 +204,7 @@ impl ScriptGen {
         };
         let mut s = String::new();
         s.push_str(name);
-        for _ in 0..self.rng.below(3) {
+        for _ in 0..(if self.plain { 0 } else { self.rng.below(3) }) {
             s.push(' ');
         }
         s.push('(');
